@@ -109,7 +109,90 @@ fn cnf_tt(clauses: &[Vec<(usize, bool)>]) -> TT {
     t
 }
 
+/// scenario "literals": a hash-identified top-down builder over tens of thousands of variables must hand out,
+/// for every literal, a node that denotes that literal (it identifies nodes by a 64-bit hash of the function)
+fn run_literals(plan: &Plan, ctx: &mut Ctx) -> R {
+    ctx.cur_prop = "C11";
+    let n = plan.get("nvars").clamp(100, 300_000) as usize;
+    let td: &'static SemanticDecisionNNFBuilder<'static, U64_LARGEST> = Box::leak(Box::new(SemanticDecisionNNFBuilder::new(VarOrder::linear_order(n))));
+    let mut r = Rng::new(plan.get("vt_seed") as u64);
+    let mut seen: BTreeMap<usize, usize> = BTreeMap::new();
+    let count = plan.get_or("lit_count", n as i64).min(n as i64) as usize;
+    let stride = (r.below(n as u64) as usize) | 1;
+    for i in 0..count {
+        let v = (i * stride + 7) % n;
+        let pol = r.bool();
+        let p = td.var(VarLabel::new(v as u64), pol);
+        ctx.ops += 1;
+        // structural reading: a literal is a decision on its own variable with constant children
+        let ok = match p {
+            BddPtr::Reg(nd) | BddPtr::Compl(nd) => {
+                let (lo, hi) = (p.low(), p.high());
+                nd.var.value_usize() == v && lo.is_const() && hi.is_const() && hi.is_true() == pol && lo.is_true() != pol
+            }
+            _ => false,
+        };
+        ctx.check("C11", "semantic-topdown-builder-result-function", ok, || {
+            format!("SemanticDecisionNNFBuilder over {n} variables: var(x{v}, {pol}) returned a node that does not denote that literal (it decides x{:?})", p.var_safe().map(|l| l.value()))
+        })?;
+        // two different variables never share a node
+        let a = wb::addr(p);
+        if let Some(prev) = seen.insert(a, v) {
+            ctx.check("C11", "semantic-topdown-builder-result-function", prev == v, || format!("var(x{v}) and var(x{prev}) share the node {a:#x}"))?;
+        }
+    }
+    ctx.ev(290, &[n as u64, count as u64, seen.len() as u64]);
+    ctx.count("literal-scenario-variables", n as u64);
+    ctx.nontrivial = true;
+    ctx.states.push(n as u64);
+    Ok(())
+}
+
+/// scenario "compile": a mid-size CNF compiled by the hash-identified SDD builder (its apply cache sees ~10^5 keys)
+/// must denote the same function as the BDD compiled from the same CNF
+fn run_compile(plan: &Plan, ctx: &mut Ctx) -> R {
+    ctx.cur_prop = "C11";
+    let n = plan.get("nvars").clamp(8, 26) as usize;
+    let clauses = crate::worlds::sat::clauses_of_plan(&plan.ops, n);
+    let lits: Vec<Vec<Literal>> = clauses.iter().filter(|c| !c.is_empty()).map(|c| c.iter().map(|(v, p)| Literal::new(VarLabel::new(*v as u64), *p)).collect()).collect();
+    let mut all = lits.clone();
+    all.push(vec![Literal::new(VarLabel::new(n as u64 - 1), true), Literal::new(VarLabel::new(n as u64 - 1), false)]);
+    let cnf = Cnf::new(&all);
+    let order: Vec<VarLabel> = (0..n).map(|v| VarLabel::new(v as u64)).collect();
+    // fully balanced vtree: 10^6-10^7 recursive calls and ~10^5 apply-cache keys at 17-20 variables (seconds per run);
+    // random vtree shapes can take minutes and are not used here
+    let sem: &'static SemanticSddBuilder<'static, U64_LARGEST> = Box::leak(Box::new(SemanticSddBuilder::new(ws::build_vtree_from_order(&order, plan.get_or("compile_vt_shape", 3), plan.get("vt_seed") as u64))));
+    let bdd: &'static RobddBuilder<'static, AllIteTable<BP>> = Box::leak(Box::new(RobddBuilder::new(VarOrder::linear_order(n))));
+    let s = sem.compile_cnf(&cnf);
+    let b = bdd.compile_cnf(&cnf);
+    ctx.ops += 2;
+    let map = create_semantic_hash_map::<U64_LARGEST>(n);
+    let (hs, hb) = (s.semantic_hash(&map).value(), b.semantic_hash(&map).value());
+    ctx.ev(291, &[n as u64, clauses.len() as u64, hb as u64]);
+    // equal functions hash equally (C11 a), so different hashes mean different functions
+    ctx.check("C11", "semantic-sdd-builder-result-function", hs == hb, || {
+        format!("SemanticSddBuilder compile_cnf of a {n}-variable, {}-clause CNF hashes to {hs}, the BDD compiled from the same CNF to {hb}: they denote different functions", clauses.len())
+    })?;
+    // and on 256 sampled assignments
+    let mut r = Rng::new(plan.get("vt_seed") as u64 ^ 0x77);
+    for _ in 0..256 {
+        let a: Vec<bool> = (0..n).map(|_| r.bool()).collect();
+        let (es, eb) = (s.evaluate(&a), b.evaluate(&a));
+        let want = clauses.iter().all(|c| c.iter().any(|(v, p)| a[*v] == *p));
+        ctx.check("C11", "semantic-sdd-builder-result-function", es == want && eb == want, || format!("compile_cnf disagrees with the CNF on a sampled assignment (semantic SDD {es}, BDD {eb}, CNF {want})"))?;
+    }
+    ctx.count("compile-scenario-clauses", clauses.len() as u64);
+    ctx.nontrivial = true;
+    ctx.states.push(hb as u64);
+    Ok(())
+}
+
 fn run(plan: &Plan, ctx: &mut Ctx) -> R {
+    match plan.get_or("scenario", 0) {
+        1 => return run_literals(plan, ctx),
+        2 => return run_compile(plan, ctx),
+        _ => {}
+    }
     ctx.cur_prop = "C11";
     let n = plan.get("nvars").clamp(1, 6) as usize;
     let f_tiny: Field<U32_TINY> = Field::new(n);
@@ -414,7 +497,17 @@ impl World for SemHashWorld {
         let mut c = Rng::stream(run_seed, "config");
         let mut o = Rng::stream(run_seed, "ops");
         let mut p = Rng::stream(run_seed, "placement");
-        let n = 1 + c.below(6);
+        // rare large scenarios: 1 in 150 "literals" (tens of thousands of variables), 1 in 2500 "compile" (20-22 variable CNF)
+        let scenario = if target != "C16" && c.below(150) == 0 { 1 } else if target != "C16" && c.below(2500) == 0 { 2 } else { 0 };
+        // (diagnostics only: VERIF_FORCE_SCENARIO / VERIF_FORCE_N override the drawn values; never set by the checks)
+        let scenario = std::env::var("VERIF_FORCE_SCENARIO").ok().and_then(|s| s.parse::<i64>().ok()).unwrap_or(scenario);
+        cfg.insert("scenario".into(), scenario);
+        let n = match scenario {
+            1 => *c.pick(&[20_000u64, 60_000, 100_000, 100_000]),
+            2 => 17 + c.below(4),
+            _ => 1 + c.below(6),
+        };
+        let n = std::env::var("VERIF_FORCE_N").ok().and_then(|s| s.parse::<u64>().ok()).unwrap_or(n);
         cfg.insert("nvars".into(), n as i64);
         for k in ["ord1", "ord2", "ord3", "ord4"] {
             cfg.insert(k.into(), c.below(720) as i64);
@@ -439,6 +532,21 @@ impl World for SemHashWorld {
             rates[SemAppCacheForget as usize] = *c.pick(&[8u16, 32, 128]);
         }
         let mut ops = Vec::new();
+        if scenario == 2 {
+            // random 3-CNF at about two clauses per variable
+            for _ in 0..(2 * n + c.below(6)) {
+                let mut a = [0i64; 4];
+                for slot in a.iter_mut().take(3) {
+                    let x = o.below(n) as i64 + 1;
+                    *slot = if o.bool() { x } else { -x };
+                }
+                ops.push(Op { c: 0, k: K_CLAUSE, a });
+            }
+            return Plan { world: "semhash".into(), target: target.into(), seed: run_seed, cfg, ops, faults: Faults::Random { seed: mix(run_seed, 84), rates: [0; NUM_SITES] } };
+        }
+        if scenario == 1 {
+            return Plan { world: "semhash".into(), target: target.into(), seed: run_seed, cfg, ops, faults: Faults::Random { seed: mix(run_seed, 84), rates: [0; NUM_SITES] } };
+        }
         for _ in 0..(2 + c.below(9)) {
             ops.push(Op { c: o.below(3) as u8, k: K_CLAUSE, a: gen_clause(&mut o, n) });
         }
